@@ -237,7 +237,7 @@ def run(ck):
     specs = list(latt.named_specs())
     if ck.quick:
         rng.shuffle(specs); specs = specs[:8]
-    for k in range(ck.n(22, 150)):
+    for k in range(ck.n(22, 400)):
         specs.append(latt.random_spec(rng, dim=(2 if k % 3 == 0 else 3), maxatoms=ck.n(8, 12), spin_mode="none"))
     lines = []
     for spec in specs:
